@@ -24,7 +24,7 @@ func init() {
 		technique: "runtime single-fault differential monitor: into a clean generated specification one default (or example) is planted at a chosen location, once with a value its own schema accepts and once with a value it rejects; the real SpecValidator runs on the base, the good and the bad twin and the monitor demands: bad default => error, bad example => additional warning, good value => no error and no additional warning",
 		rule: "locations: definitions, inline body-parameter and response schemas at depth 0-4 through properties / items / tuple items / additionalProperties / allOf members; simple parameters and response headers and their nested items; per-media-type response examples; member, parameter and definition names drawn from a pool which includes names equal to (the tail of) their ancestors; distinct = FNV-64 of the bad twin's text; non-trivial = distinct (location kind chain, depth, default-or-example) shapes are counted through tags; every case is non-trivial (it plants a fault)",
 		assumptions: []string{
-			"the planted leaf schema is {type: integer, maximum: 5}: 3 is accepted, 7 and \"x\" are rejected — simple enough that no recorded C01 finding interferes; every fourth case plants {type: string, format: x-even} instead and validates with a caller-supplied registry which alone knows that format (\"ab\" accepted, \"abc\" rejected)",
+			"the planted leaf schema is {type: integer, maximum: 5}: 3 (or 0) is accepted, 7 and \"x\" are rejected; one case in five plants a leaf whose rejected value is the zero value of its kind ({type:integer,minimum:1} <- 0, {type:string,minLength:1} <- \"\", {type:boolean,enum:[true]} <- false) or whose accepted value is ({type:string,maxLength:3} <- \"\") — simple enough that no recorded C01 finding interferes; every fourth case plants {type: string, format: x-even} instead and validates with a caller-supplied registry which alone knows that format (\"ab\" accepted, \"abc\" rejected)",
 			"the generator is the oracle for where the value sits; no message text is parsed",
 			"sampled locations",
 		},
@@ -56,6 +56,7 @@ type c09Plant struct {
 	chain    []string
 	skipped  bool // some path on the way to the location is "visited" for the heuristic
 	leafKind     string
+	headerTop    bool   // the planted default sits on a response header itself (not on its items)
 	knownMissing string // recorded finding which explains a planted bad value that is NOT reported at this location ("" none)
 	setValue func(v any)
 	remove   func()
@@ -156,6 +157,14 @@ func newLeaf(kind string) map[string]any {
 		return map[string]any{"type": "string", "format": "x-even"}
 	case "obj":
 		return map[string]any{"type": "object", "maxProperties": gen.I(1)}
+	case "zint":
+		return map[string]any{"type": "integer", "minimum": gen.I(1)}
+	case "zstr":
+		return map[string]any{"type": "string", "minLength": gen.I(1)}
+	case "zbool":
+		return map[string]any{"type": "boolean", "enum": []any{true}}
+	case "estr":
+		return map[string]any{"type": "string", "maxLength": gen.I(3)}
 	}
 	return map[string]any{"type": "integer", "maximum": gen.I(5)}
 }
@@ -167,12 +176,26 @@ func leafValues(kind string, r *lib.Rand) (good, bad, sibling any) {
 		return "ab", "abc", "cd"
 	case "obj":
 		return map[string]any{"type": "array"}, map[string]any{"a": gen.I(1), "b": gen.I(2)}, map[string]any{}
+	case "zint":
+		// the rejected value is the zero value of its kind
+		return gen.I(3), gen.I(0), gen.I(2)
+	case "zstr":
+		return "ab", "", "c"
+	case "zbool":
+		return true, false, true
+	case "estr":
+		// the ACCEPTED value is the zero value of its kind
+		return "", "abcd", "s"
 	}
 	bad = any(gen.I(7))
 	if r.Bool() {
 		bad = "x"
 	}
-	return gen.I(3), bad, gen.I(1)
+	good = gen.I(3)
+	if r.P(0.3) {
+		good = gen.I(0)
+	}
+	return good, bad, gen.I(1)
 }
 
 func (p *c09) plant(r *lib.Rand, g *gen.SpecGen, doc map[string]any, leafKind string, variant int) *c09Plant {
@@ -343,10 +366,12 @@ func (p *c09) plant(r *lib.Rand, g *gen.SpecGen, doc map[string]any, leafKind st
 		}
 		h["X-Planted"] = node
 		pl.where, pl.chain = fmt.Sprintf("response header, items depth %d", d), []string{"header", fmt.Sprintf("items*%d", d), fmt.Sprintf("variant%d", variant)}
+		pl.headerTop = d == 0
 		pl.setValue = func(v any) { target["default"] = v }
 		pl.remove = func() { delete(target, "default") }
 		if d >= 1 && r.Bool() {
 			top := node
+			pl.headerTop = false
 			pl.where, pl.chain = fmt.Sprintf("response header, array default nested %d deep", d), []string{"header", fmt.Sprintf("array-default*%d", d), fmt.Sprintf("variant%d", variant)}
 			pl.setValue = func(v any) { top["default"] = wrapArray(v, d, sibling()) }
 			pl.remove = func() { delete(top, "default") }
@@ -391,6 +416,9 @@ func (p *c09) Run(w *lib.Worker, idx int, r *lib.Rand) lib.Case {
 		leafKind = "fmt"
 	case idx%7 == 5:
 		leafKind = "obj" // schema locations only; a value which looks like a schema
+	case idx%5 == 1:
+		// leaves whose rejected (zint, zstr, zbool) or accepted (estr) value is the zero value of its kind
+		leafKind = []string{"zint", "zstr", "zbool", "estr"}[r.Intn(4)]
 	}
 	fmtLeaf := leafKind == "fmt"
 	formats, session := strfmt.Registry(strfmt.Default), p.session
@@ -452,6 +480,13 @@ func (p *c09) Run(w *lib.Worker, idx int, r *lib.Rand) lib.Case {
 		if missing := strings.Contains(what, "rejected by its own schema"); missing && pl.knownMissing != "" && !pl.skipped {
 			c.Known = []string{pl.knownMissing}
 			c.KnownWhat = fmt.Sprintf("%s at %s (%s): %s", pl.kind, pl.where, strings.Join(pl.chain, ">"), what)
+			c.Sample = sample
+			return c
+		}
+		if spurious := strings.Contains(what, "accepted by its schema"); spurious && leafKind == "estr" && pl.headerTop && pl.kind == "default" && pl.knownMissing == "" && !pl.skipped {
+			// the accepted default "" of a string header is reported as "required" (recorded for C16 as well)
+			c.Known = []string{"header-empty-string-required"}
+			c.KnownWhat = fmt.Sprintf("%s at %s (%s): %s: %v", pl.kind, pl.where, strings.Join(pl.chain, ">"), what, extra)
 			c.Sample = sample
 			return c
 		}
